@@ -17,7 +17,16 @@ import (
 // pointerShaped wraps t so that the struct is stored directly in an interface word
 func pointerShaped(t reflect.Type, how int) reflect.Type {
 	var inner reflect.Type
-	switch how % 3 {
+	switch how % 5 {
+	case 3, 4:
+		// one pointer-shaped field and fields of size zero around it: only a struct whose ONE field is
+		// pointer-shaped lives in the interface word itself
+		z := reflect.StructField{Name: "Z", Type: reflect.TypeOf(struct{}{}), Tag: `plenc:"2"`}
+		p := reflect.StructField{Name: "X", Type: reflect.PointerTo(t), Tag: `plenc:"1"`}
+		if how%5 == 3 {
+			return reflect.StructOf([]reflect.StructField{z, p})
+		}
+		return reflect.StructOf([]reflect.StructField{p, z})
 	case 0:
 		inner = reflect.PointerTo(t)
 	case 1:
